@@ -101,6 +101,13 @@ def run(c):
          desc="Extension::validate: ok => verify_kernel_signatures, bypasses head.height == 0 and fast_validation")
     if len(genesis) != 1 or len(fast) != 1:
         c.lost("state-validate-bypasses", "R2", E, "Extension::validate has exactly the genesis and fast_validation bypasses", "bypass guards found: %d genesis, %d fast" % (len(genesis), len(fast)))
+    c.r1("state-proofs-batch-cleared-after-verify", X + "Extension::verify_rangeproofs", T + "Output::batch_verify_proofs", sink="re:alloc::vec::Vec::clear$", via=0,
+         desc="verify_rangeproofs: a batch of commitments/proofs is cleared only after batch_verify_proofs succeeded on it")
+    c.r1("state-sigs-batch-cleared-after-verify", X + "Extension::verify_kernel_signatures", T + "TxKernel::batch_sig_verify", sink="re:alloc::vec::Vec::clear$", via=0,
+         desc="verify_kernel_signatures: a batch of kernels is cleared only after batch_sig_verify succeeded on it")
+    c.r2_arg("state-proofs-from-mmr", X + "Extension::verify_rangeproofs", "re:alloc::vec::Vec::push$", 1, must=["re:^call:ReadablePMMR::get_data$"], floor=2,
+             desc="verify_rangeproofs verifies the commitments and proofs stored in the output / range-proof MMRs")
+    c.r2_arg("state-sigs-from-mmr", X + "Extension::verify_kernel_signatures", "re:alloc::vec::Vec::push$", 1, must=["re:^call:ReadablePMMR::get_data$", "arg0.kernel_pmmr"], floor=1)
     c.r1("state-sums", X + "Extension::validate_kernel_sums", VKS, via=0)
     c.r2_arg("state-sums-overage", X + "Extension::validate_kernel_sums", VKS, 1, must=["call:BlockHeader::total_overage"])
     c.r2_arg("state-sums-offset", X + "Extension::validate_kernel_sums", VKS, 2, must=["call:BlockHeader::total_kernel_offset"])
